@@ -211,6 +211,9 @@ func Open(ctx context.Context, S3 S3Interface, cfg Config, opts OpenOptions, whe
 			return nil, err
 		}
 		skipUnreadable = true
+		// a listed version may be retired by a concurrent commit before it is
+		// fetched; it is then under merged/, not gone
+		persists = []mast.Persist{rootPersist, mergedPersist}
 	}
 	tree, mergedRoots, unmergeableRoots, err = mergeRoots(ctx, versionsToLoad, cfg, crdtConfig, persists, when, opts.ForceRebranch, &kvVersion, skipUnreadable)
 	if err != nil {
